@@ -341,11 +341,16 @@ impl<F: Float> GaussianMixtureModel<F> {
         observations: &ArrayBase<D, Ix2>,
     ) -> (Array1<F>, Array2<F>) {
         let weighted_log_prob = self.estimate_weighted_log_prob(observations);
-        let log_prob_norm = weighted_log_prob
-            .mapv(|x| x.exp())
-            .sum_axis(Axis(1))
-            .mapv(|x| x.ln());
-        let log_resp = weighted_log_prob - log_prob_norm.to_owned().insert_axis(Axis(1));
+        // Stable log-sum-exp: shift every row by its maximum before exponentiating, so that the
+        // largest term is exp(0) = 1 and the sum can neither underflow to zero (observations far
+        // from every component) nor lose precision in the subnormal range.
+        let row_max = weighted_log_prob.map_axis(Axis(1), |row| {
+            row.iter().copied().fold(F::neg_infinity(), F::max)
+        });
+        let shifted = weighted_log_prob - row_max.to_owned().insert_axis(Axis(1));
+        let log_sum = shifted.mapv(|x| x.exp()).sum_axis(Axis(1)).mapv(|x| x.ln());
+        let log_resp = shifted - log_sum.to_owned().insert_axis(Axis(1));
+        let log_prob_norm = row_max + log_sum;
         (log_prob_norm, log_resp)
     }
 
